@@ -345,10 +345,22 @@ func fnSet(ctx *cmdContext, args map[string]any) (output respValue, err error) {
 	return
 }
 
+// largest string value the server accepts (redis proto-max-bulk-len default)
+const maxStringSize = 512 * 1024 * 1024
+
 func fnSetRange(ctx *cmdContext, args map[string]any) (output respValue, err error) {
 	key := args["key"].(string)
 	offset := args["offset"].(int64)
 	value := args["value"].(string)
+
+	if offset < 0 {
+		output.data = respErrorString("ERR offset is out of range")
+		return
+	}
+	if offset > maxStringSize || int64(len(value)) > maxStringSize-offset {
+		output.data = respErrorString("ERR string exceeds maximum allowed size (proto-max-bulk-len)")
+		return
+	}
 
 	result := ctx.dsc.setRange(key, int(offset), value)
 	output.data = result.data
